@@ -75,6 +75,19 @@ func approxP(twoU, n1, n2 int, T []int, alt stats.LocationHypothesis, hi bool) (
 	}
 	mean := float64(n1*n2) / 2
 	variance := float64(n1*n2) / 12 * ((N + 1) - tc/(N*(N-1)))
+	if ni := int64(n1 + n2); ni >= 2 && ni <= 2000000 {
+		// the same quantity without the cancellation of (N+1) - sum/(N(N-1)):
+		// n1*n2*((N+1)N(N-1) - sum(t^3-t)) / (12 N(N-1)), the integer numerator
+		// formed exactly (N^3 < 2^63). Matters for large samples that are
+		// nearly all equal, where the float64 difference loses log2(N) bits.
+		var itc int64
+		for _, t := range T {
+			it := int64(t)
+			itc += it*it*it - it
+		}
+		d := (ni+1)*ni*(ni-1) - itc
+		variance = float64(n1) * float64(n2) * (float64(d) / (12 * float64(ni) * float64(ni-1)))
+	}
 	if !(variance > 0) {
 		return math.NaN(), true
 	}
@@ -99,6 +112,41 @@ func approxP(twoU, n1, n2 int, T []int, alt stats.LocationHypothesis, hi bool) (
 		return math.Min(1, 2*ph), false
 	}
 	return ph, false
+}
+
+// c03TwoU is twice the pair-count statistic: by its definition (all n1*n2
+// pairs) for small samples, and for large ones by counting, for every value of
+// the first sample, the values of the sorted second sample below it and equal
+// to it (binary search with the float64 comparison operators, so +0 == -0).
+// c03TwoUSelfTest compares the two on random pairs at start-up.
+func c03TwoU(x1, x2 []float64) int {
+	if len(x1)*len(x2) <= 1<<16 {
+		return twoUDef(x1, x2)
+	}
+	return twoUCount(x1, x2)
+}
+
+func twoUCount(x1, x2 []float64) int {
+	s := append([]float64(nil), x2...)
+	sort.Float64s(s)
+	t := 0
+	for _, a := range x1 {
+		lo := sort.Search(len(s), func(i int) bool { return s[i] >= a })
+		hi := sort.Search(len(s), func(i int) bool { return s[i] > a })
+		t += 2*lo + (hi - lo)
+	}
+	return t
+}
+
+func c03TwoUSelfTest(rng *mon.Rand) error {
+	for k := 0; k < 200; k++ {
+		n1, n2 := rng.Range(1, 300), rng.Range(1, 300)
+		x1, x2 := c03Pair(rng, n1, n2, rng.Intn(7))
+		if a, b := twoUDef(x1, x2), twoUCount(x1, x2); a != b {
+			return fmt.Errorf("pair count by sorting %d, by definition %d (n1=%d n2=%d)", b, a, n1, n2)
+		}
+	}
+	return nil
 }
 
 type mwOut struct {
@@ -169,7 +217,7 @@ func c03Judge(w *mon.W, c c03Case) {
 			return
 		}
 		res := o.res
-		twoU := twoUDef(c.X1, c.X2)
+		twoU := c03TwoU(c.X1, c.X2)
 		if res.N1 != n1 || res.N2 != n2 || res.U != float64(twoU)/2 {
 			w.Violate("U", fmt.Sprintf("N1=%d N2=%d U=%v, want %d %d %v", res.N1, res.N2, res.U, n1, n2, float64(twoU)/2), c)
 		}
@@ -266,8 +314,10 @@ func c03Judge(w *mon.W, c c03Case) {
 		}
 		if d != nil && math.Abs(d.P-sd.P) > 1e-9 {
 			// the swapped call may itself be a D3 case (judged as such when it is generated as a base case)
-			tab := uCache.Get(T, n2)
-			if exact && ties && math.Abs(sd.P-d3Signature(tab, twoUDef(c.X2, c.X1))) <= 1e-12 {
+			// (the exact table only on the exact path: for an approximate-path
+			// case it has hundreds of ranks and the monitor would spend hours and
+			// gigabytes building it instead of reporting)
+			if exact && ties && math.Abs(sd.P-d3Signature(uCache.Get(T, n2), c03TwoU(c.X2, c.X1))) <= 1e-12 {
 				w.Known("D3", "swap-two-sided", fmt.Sprintf("%s: two-sided P=%.12g, swapped %.12g", cfg, d.P, sd.P), c)
 			} else {
 				w.Violate("swap-two-sided", fmt.Sprintf("%s: two-sided P=%.12g, swapped %.12g", cfg, d.P, sd.P), c)
@@ -325,7 +375,8 @@ func monotoneMap(rng *mon.Rand, x1, x2 []float64) (m1, m2 []float64, name string
 
 // c03Pair draws a sample pair. density: 0 none, 1 low, 2 high, 3 all equal,
 // 4 one sample constant, 5 sparse (distinct values with one to three
-// coincidences, the shape of real measurements: many ranks, few ties).
+// coincidences, the shape of real measurements: many ranks, few ties), 6
+// quantised (6 .. N/4 levels; used by the large-sample class).
 func c03Pair(rng *mon.Rand, n1, n2, density int) ([]float64, []float64) {
 	N := n1 + n2
 	var pool func() float64
@@ -363,6 +414,13 @@ func c03Pair(rng *mon.Rand, n1, n2, density int) ([]float64, []float64) {
 	case 3:
 		v := rng.Uniform(-5, 5)
 		pool = func() float64 { return v }
+	case 6: // quantised measurements: 6 .. N/4 levels, log-uniform
+		k := 6
+		if N/4 > 6 {
+			k = int(rng.LogUniform(6, float64(N/4)))
+		}
+		vals := incValues(rng, k)
+		pool = func() float64 { return vals[rng.Intn(k)] }
 	case 5:
 		vals := incValues(rng, N)
 		rng.ShuffleF(vals)
@@ -405,9 +463,13 @@ func c03Pair(rng *mon.Rand, n1, n2, density int) ([]float64, []float64) {
 }
 
 func c03Run(r *mon.Run) {
-	r.Rule("sample pairs of sizes 0..400 on both sides of every exact/approximate switch-over (limit, limit+1 in either sample), tie densities none/low/high/all-equal/one-sample-constant, under the limit configurations default (50,25), (0,0), (5,3), (64,34), (3,10) — ties limit above the untied limit —, (50,0); per pair 3 alternatives plus permuted, monotonically mapped and swapped calls; also the exhaustive N<=7 (tie vector x allocation) set under limits (0,0). Non-trivial = hits a (configuration x method) cell or an error/extreme class; distinct by hash of (x1,x2,limits).")
-	r.Assume("expected method decided by the oracle from (ties, n1, n2, current limits); exact reference as in C01; normal approximation evaluated with math.Erfc and, on a 2% sample, with the 384-bit Phi", "the two public limit variables are changed only between parallel sections and restored at the end (asserted)")
+	r.Rule("large samples under the default limits: pooled sizes log-uniform 400..70000 (quick) / 200000 (thorough) and pool or sample sizes at or just beyond round numbers (powers of two, 500, 1000, 5000, 10000, ...), tie densities none/low/high/all-equal/one-sample-constant/sparse/quantised, same judge with U by sorting and counting; and sample pairs of sizes 0..400 on both sides of every exact/approximate switch-over (limit, limit+1 in either sample), tie densities none/low/high/all-equal/one-sample-constant, under the limit configurations default (50,25), (0,0), (5,3), (64,34), (3,10) — ties limit above the untied limit —, (50,0); per pair 3 alternatives plus permuted, monotonically mapped and swapped calls; also the exhaustive N<=7 (tie vector x allocation) set under limits (0,0). Non-trivial = hits a (configuration x method) cell or an error/extreme class; distinct by hash of (x1,x2,limits).")
+	r.Assume("expected method decided by the oracle from (ties, n1, n2, current limits); exact reference as in C01; normal approximation evaluated with math.Erfc and, on a 2% sample, with the 384-bit Phi", "the two public limit variables are changed only between parallel sections and restored at the end (asserted)", "above 65536 pairs the reference pair count U is obtained by sorting and counting instead of by visiting every pair (the two are compared on 200 random pairs at start-up)")
 	if err := ref.USelfTest(r.Pick(7, 8)); err != nil {
+		r.Inconclusive("reference self-test failed: " + err.Error())
+		return
+	}
+	if err := c03TwoUSelfTest(mon.NewRand(r.Seed, mon.HashStr("C03/twoU-selftest"))); err != nil {
 		r.Inconclusive("reference self-test failed: " + err.Error())
 		return
 	}
@@ -547,7 +609,88 @@ func c03Run(r *mon.Run) {
 		}
 	}
 	stats.MannWhitneyExactLimit, stats.MannWhitneyTiesExactLimit = defU, defT
+	c03Large(r, defU, defT)
 	if stats.MannWhitneyExactLimit != defU || stats.MannWhitneyTiesExactLimit != defT {
 		r.Inconclusive("limit variables not restored")
 	}
+}
+
+// c03RoundSizes: sizes at which an implementation plausibly changes its
+// behaviour (block lengths, cutoffs of fast paths, widths of counters).
+var c03RoundSizes = []int{500, 512, 1000, 1024, 2000, 2048, 4096, 5000, 8192, 10000, 16384, 20000, 25000, 30000, 32768, 40000, 50000, 65536, 100000, 131072, 150000}
+
+// c03Large: the same judge on large samples under the default limits (always
+// the approximate method: the pooled size is at least 400). Pooled sizes
+// log-uniform from 400 to tens of thousands, and sizes (of the pool or of one
+// sample) at or just beyond round numbers; all tie densities, among them the
+// quantised one (a handful to N/4 levels), where every tie group is long.
+// The pair count is obtained by sorting and counting (c03TwoU), the variance
+// of the approximation from the exact integer numerator (approxP).
+func c03Large(r *mon.Run, defU, defT int) {
+	maxN := r.Pick(70000, 200000) // N^3 < 2^53: the stated variance is free of rounding surprises for all-equal data
+	r.Gate("large/N>10000/ties", "large/N>10000/no-ties", "large/N>10000/all-equal", "large/round-size", "large/tie-group>=1000")
+	r.Parallel("large-default-limits", r.Pick(168, 1680), func(w *mon.W, i int) {
+		rng := w.Rng
+		density := i % 7
+		mode := (i / 7) % 4
+		round := func(limit int) int {
+			var ok []int
+			for _, s := range c03RoundSizes {
+				if s+3 <= limit {
+					ok = append(ok, s)
+				}
+			}
+			return ok[rng.Intn(len(ok))] + rng.PickI(0, 0, 1, 1, 2, 3, -1)
+		}
+		var n1, n2 int
+		switch mode {
+		case 0, 1, 2:
+			var N int
+			switch mode {
+			case 0:
+				N = int(rng.LogUniform(400, 10000))
+			case 1:
+				N = int(rng.LogUniform(10001, float64(maxN)))
+			default:
+				N = round(maxN)
+				w.Hit("large/round-size")
+			}
+			switch rng.Intn(4) {
+			case 0:
+				n1 = N / 2
+			case 1:
+				n1 = rng.Range(1, N-1)
+			case 2:
+				n1 = rng.Range(1, 100)
+			default:
+				n1 = N - rng.Range(1, 100)
+			}
+			n2 = N - n1
+		default: // one sample of a round size
+			n1 = round(maxN / 2)
+			n2 = int(rng.LogUniform(1, float64(maxN-n1)))
+			if n1+n2 < 400 {
+				n2 = 400 - n1
+			}
+			if rng.Bool() {
+				n1, n2 = n2, n1
+			}
+			w.Hit("large/round-size")
+		}
+		x1, x2 := c03Pair(rng, n1, n2, density)
+		T, ties := pooledTies(x1, x2)
+		maxT := 0
+		for _, t := range T {
+			maxT = max(maxT, t)
+		}
+		N := n1 + n2
+		w.HitIf(N > 10000 && ties && len(T) > 1, "large/N>10000/ties")
+		w.HitIf(N > 10000 && !ties, "large/N>10000/no-ties")
+		w.HitIf(N > 10000 && len(T) == 1, "large/N>10000/all-equal")
+		w.HitIf(N <= 10000, "large/N<=10000")
+		w.HitIf(N > 65536, "large/N>65536")
+		w.HitIf(maxT >= 1000 && len(T) > 1, "large/tie-group>=1000")
+		w.HitIf(ties && maxT <= 3, "large/sparse-ties")
+		c03Judge(w, c03Case{X1: x1, X2: x2, LimU: defU, LimT: defT})
+	})
 }
